@@ -405,7 +405,7 @@ def matchVariable (tx : Tx) (md : MD) : Tx :=
   let name := if md.key.isEmpty then md.var.name else md.var.name ++ [0x3a] ++ md.key
   { tx with matchedVars := tx.matchedVars.add name md.value, matchedVar := md.value, matchedVarName := name }
 
-/-- Go strconv.Atoi with error: none on syntax error (range errors cannot arise below 2^63 here) -/
+/-- Go strconv.Atoi with error: none on syntax error and outside the int64 range -2^63 … 2^63-1 -/
 def atoiOpt (s : Bytes) : Option Int :=
   match s with
   | [] => none
@@ -414,8 +414,12 @@ def atoiOpt (s : Bytes) : Option Int :=
     if ds.isEmpty || !ds.all (fun b => 48 ≤ b && b ≤ 57) then none
     else
       let n : Int := ds.foldl (fun acc d => acc * 10 + ((d.toNat - 48 : Nat) : Int)) 0
-      if n > 9223372036854775807 then none
-      else some (if c == 0x2d then -n else n)
+      if c == 0x2d then (if n > 9223372036854775808 then none else some (-n))
+      else if n > 9223372036854775807 then none
+      else some n
+
+/-- int64 arithmetic wraps around (Go's `int` on the 64-bit platforms coraza runs on) -/
+def wrap64 (i : Int) : Int := (i + 9223372036854775808) % 18446744073709551616 - 9223372036854775808
 
 def intToBytes (i : Int) : Bytes := if i < 0 then 0x2d :: natToBytes i.natAbs else natToBytes i.toNat
 
@@ -444,7 +448,7 @@ def setvarEval (tx : Tx) (key : Bytes) (op : SetOp) : Tx :=
           match curE with
           | none => tx                                            -- "Invalid value", nothing stored
           | some cv =>
-            let r := if c == 0x2b then cv + val else cv - val
+            let r := wrap64 (if c == 0x2b then cv + val else cv - val)
             { tx with txc := tx.txc.set1 key (intToBytes r) }
       else { tx with txc := tx.txc.set1 key value }
 
